@@ -41,6 +41,8 @@ def reader_tokens(layout):
     for kind, dst, d in L.parse_reader(layout):
         if kind == "counted":
             dec = d["count_dec"] or ("?", "?")
+            if d.get("count_wrapped"):
+                dec = (dec[0] + " through " + d["count_wrapped"], dec[1])
             el = d["elem"] or "?"
             if el == "r2" and d["elem_dec"]:
                 el = "r2:" + d["elem_dec"][1]
@@ -357,6 +359,11 @@ def _reload(ck, fx, cg):
               "%d failing path(s) of Program::from_bytes, none raised by an explicit check" % n_fail if not explicit else
               "%d of %d failing path(s) are explicit refusals (bail!/ensure!/panic!) added on top of decoding, first at %s: files the writer produces and `run` accepts can be rejected on load" % (
                   len(explicit), n_fail, explicit[0]))
+    # the writer emits code only through the Method constants' ranges: an instruction of the in-memory program that lies
+    # outside every method's range is lost by a save/load cycle. That every instruction the compiler emits into the
+    # program's code belongs to a method's own range is C02's R2.methods — evaluated here as one presupposition
+    shared.presuppose(ck, fx, cg, "C02", lambda o: o["rule"] == "R2.methods", "R3.reload",
+                      "every instruction of a compiled program lies in a method's range (nothing is lost by writing method by method)", floor=2)
     # loader: Method arm appends the opcodes read, in order, and records (old length, count)
     rv, err = L.reader_variants(fx, "constant.from_bytes", L.PO)
     verdicts = []
